@@ -97,9 +97,15 @@ def gen(ctx):
                 inner = [lambda: G.Clamp(B.vals(sk, flo), B.vals(sk, fhi), G.Identity(sk, N)),
                          lambda: G.Shuffle(list(range(N)), G.Identity(sk, N)),
                          lambda: G.Backup(B.vals(sk, flo), B.vals(sk, fhi), B.vals(sk, lo), G.Identity(sk, N))][(b + N) % 3]()
+                if b % 2 == 0:
+                    lo, hi = B.random_box(rnd, sk, N, mode="open")
                 st = G.Clamp(B.vals(sk, lo), B.vals(sk, hi), inner)
                 st.lo_b, st.hi_b = lo, hi
                 add("clamp_value", "identity", st, B.coord_mix(rnd, sk, lo, hi, max(8, ncoord // 2)))
+                if b % 2 == 0:      # the same open box directly above the leaf
+                    st = G.Clamp(B.vals(sk, lo), B.vals(sk, hi), G.Identity(sk, N))
+                    st.lo_b, st.hi_b = lo, hi
+                    add("clamp_value", "identity", st, B.coord_mix(rnd, sk, lo, hi, max(8, ncoord // 2)))
                 # B: clamp over the user-defined counting probe (M != N)
                 lo, hi = B.random_box(rnd, sk, N)
                 M = N % 4 + 1
